@@ -5,6 +5,11 @@
   Reading: `votes` is a Python dict `(upper, lower) -> count`; `WF votes` = keys are distinct (a dict),
   no candidate is paired with himself, counts are non-negative.  The candidates are all names that occur
   in a key; an absent pair counts 0 : 0; `Beats v x y` ⇔ `d x y > d y x`.
+  `WFd votes` = the same WITHOUT the no-self-pair clause: a dictionary may carry self-pairs (the diagonal of a
+  pairwise matrix, `('Z','Z'): 0`); a candidate named only by a self-pair is a candidate (zero against zero with
+  everybody).  Section "dictionaries with self-pairs" restates every `WF` theorem for `WFd`; the one difference:
+  with a single candidate (`{('A','A'): 0}`, the only way to write one candidate) `CondorcetWinner` returns
+  nothing (`cw_one_candidate`), so `cw_exact_diag` asks for two candidates.
 
   * Smith set  = the ⊆-least non-empty set of candidates each of whose members beats every outsider;
   * Schwartz set = the union of the ⊆-minimal non-empty sets of candidates that no outsider beats.
@@ -12,8 +17,10 @@
 -/
 import VotelibProofs.Lemmas.CondorcetWinner
 import VotelibProofs.Lemmas.SmithModel
+import VotelibProofs.Lemmas.PairwiseDiag
 namespace VL.C06
 open VL VL.Condorcet Relation
+open VL.Condorcet.Diag (WFd)
 
 /-! ### specifications (textbook definitions over `Beats`) -/
 
@@ -138,6 +145,72 @@ theorem schwartz_subset_smith {v : Pairwise} (hwf : WF v) {c : Cand} (hc : c ∈
   have hcs := (schwartz_exact hwf c).1 hc
   exact Graph.schwartzReach_sub_dominating (fun _ _ h => Beats.asymm h) hdom (hne (List.ne_nil_of_mem hcs.1)) hcs
 
+/-! ### dictionaries with self-pairs (matrix diagonal entries) -/
+
+/-- every `WF` dictionary is a `WFd` dictionary: the theorems of this section subsume the `WF` ones -/
+theorem wfd_of_wf {v : Pairwise} (h : WF v) : WFd v := Diag.wfd_of_wf h
+
+theorem smith_exact_diag {v : Pairwise} (hwf : WFd v) (c : Cand) : c ∈ smithSet v ↔ smithSpec v c :=
+  Diag.mem_smithSet hwf c
+
+theorem schwartz_exact_diag {v : Pairwise} (hwf : WFd v) (c : Cand) : c ∈ schwartzSet v ↔ schwartzSpec v c :=
+  Diag.mem_schwartzSet hwf c
+
+/-- **SmithSet is the least non-empty dominating set also when the dictionary has self-pairs**; the candidates
+    (`candidates v`, over which `Dominating` quantifies) include those named only by a self-pair. -/
+theorem smith_is_least_dominating_diag {v : Pairwise} (hwf : WFd v) :
+    Dominating v (fun c => c ∈ smithSet v) ∧
+    (candidates v ≠ [] → ∃ c, c ∈ smithSet v) ∧
+    ∀ S : Cand → Prop, Dominating v S → (∃ s, S s) → ∀ c ∈ smithSet v, S c := by
+  have heq : (fun c => c ∈ smithSet v) = smithSpec v := funext fun c => propext (smith_exact_diag hwf c)
+  refine ⟨?_, ?_, ?_⟩
+  · rw [heq]; exact smithSpec_dominating v
+  · intro hne
+    obtain ⟨c, hc⟩ := smithSpec_nonempty v hne
+    exact ⟨c, (smith_exact_diag hwf c).2 hc⟩
+  · intro S hS hne c hc
+    exact smithSpec_least v hS hne ((smith_exact_diag hwf c).1 hc)
+
+/-- **SchwartzSet is the union of the minimal non-empty undominated sets also with self-pairs.** -/
+theorem schwartz_is_union_of_minimal_undominated_diag {v : Pairwise} (hwf : WFd v) (c : Cand) :
+    c ∈ schwartzSet v ↔ ∃ S, MinimalUndominated v S ∧ S c := by
+  rw [schwartz_exact_diag hwf, schwartzSpec_is_union_of_minimal_undominated]
+
+/-- a candidate named by a self-pair is a candidate -/
+theorem self_pair_is_candidate {v : Pairwise} {z : Cand} {x : Rat} (h : ((z, z), x) ∈ v) : z ∈ candidates v :=
+  fst_mem_candidates h
+
+/-- **CondorcetWinner with self-pairs, two or more candidates: `[c]` exactly when `c` beats all others** -/
+theorem cw_exact_diag {v : Pairwise} (hwf : WFd v) (h2 : 2 ≤ (candidates v).length) (c : Cand) :
+    condorcetWinner v = [c] ↔ IsCW v c :=
+  ⟨Diag.cw_sound hwf, fun h => Diag.cw_complete hwf h (Diag.exists_other_of_two h2 c)⟩
+
+theorem cw_none_diag {v : Pairwise} (hwf : WFd v) (h2 : 2 ≤ (candidates v).length) :
+    condorcetWinner v = [] ↔ ¬ ∃ c, IsCW v c := by
+  constructor
+  · rintro h ⟨c, hc⟩
+    rw [(cw_exact_diag hwf h2 c).2 hc] at h
+    simp at h
+  · intro h
+    rcases condorcetWinner_shape v with h0 | ⟨c, hc⟩
+    · exact h0
+    · exact absurd ⟨c, Diag.cw_sound hwf hc⟩ h
+
+/-- the code's answer for at most one candidate (`{('A','A'): 0}`): nothing — there is no pairwise win, so
+    `beat_counts` is empty (the sole candidate "beats all others" only vacuously; `IsCW` would hold). -/
+theorem cw_one_candidate {v : Pairwise} (hwf : WFd v) (h1 : (candidates v).length ≤ 1) : condorcetWinner v = [] := by
+  apply Diag.cw_nil_of_no_wins
+  rw [List.eq_nil_iff_forall_not_mem]
+  rintro ⟨x, y⟩ hw
+  have hb := (Diag.mem_pairwiseWins hwf).1 hw
+  have hm := Diag.beats_mem hwf hb
+  rcases hl : candidates v with _ | ⟨a, _ | ⟨b, t⟩⟩
+  · rw [hl] at hm; simp at hm
+  · rw [hl] at hm
+    simp only [List.mem_singleton] at hm
+    exact hb.ne (hm.1.trans hm.2.symm)
+  · rw [hl] at h1; simp at h1
+
 /-! ### non-vacuity: concrete inputs of the shapes named in the property text -/
 
 /-- `a ~ b`, both beating `c` (sparse: the reverse pairs of the wins are absent) -/
@@ -160,5 +233,28 @@ example : smithSet exDisconnected = [0, 2, 1, 3] := by decide +kernel
 example : schwartzSet exDisconnected = [0, 2] := by decide +kernel
 example : schwartzSet [((0, 1), 1), ((1, 0), 1)] = [0, 1] := by decide +kernel
 example : smithSet exCW = [0] := by decide +kernel
+
+/-- `0` beats `1`; `2` is named only by its self-pair (zero against zero with both) -/
+def exDiagOnly : Pairwise := [((0, 1), 3), ((1, 0), 1), ((2, 2), 0)]
+/-- a full 3 x 3 matrix with its diagonal -/
+def exMatrix : Pairwise := [((0, 0), 0), ((0, 1), 4), ((0, 2), 2), ((1, 0), 1), ((1, 1), 0), ((1, 2), 3),
+  ((2, 0), 2), ((2, 1), 3), ((2, 2), 0)]
+/-- the only way to write a one-candidate election -/
+def exOne : Pairwise := [((0, 0), 0)]
+
+example : WFd exDiagOnly ∧ ¬ WF exDiagOnly := by decide +kernel
+example : WFd exMatrix ∧ ¬ WF exMatrix := by decide +kernel
+example : WFd exOne ∧ ¬ WF exOne := by decide +kernel
+example : candidates exDiagOnly = [0, 1, 2] := by decide +kernel
+example : smithSet exDiagOnly = [0, 2, 1] := by decide +kernel
+example : schwartzSet exDiagOnly = [0, 2] := by decide +kernel
+example : condorcetWinner exDiagOnly = [] := by decide +kernel
+example : 2 ≤ (candidates exDiagOnly).length := by decide +kernel
+example : condorcetWinner [((0, 1), 3), ((0, 2), 1), ((2, 2), 0)] = [0] := by decide +kernel
+example : smithSet exMatrix = [0, 2, 1] := by decide +kernel
+example : schwartzSet exMatrix = [0, 2] := by decide +kernel
+example : smithSet exOne = [0] := by decide +kernel
+example : schwartzSet exOne = [0] := by decide +kernel
+example : condorcetWinner exOne = [] ∧ IsCW exOne 0 := by decide +kernel
 
 end VL.C06
